@@ -27,27 +27,35 @@ def sh(cmd, cwd=None, timeout=3600):
 def main():
     sid, prop = sys.argv[1], sys.argv[2]
     suite = "--no-suite" not in sys.argv
+    mp0 = os.path.join(HERE, "seeded", sid, "meta.json")
+    prev = json.load(open(mp0)) if os.path.exists(mp0) else {}
+    if "--reuse-suite" in sys.argv and prev.get("suite") and prev.get("suite_builds"):
+        suite = False
     sdir = os.path.join(HERE, "seeded", sid)
     wt = "/tmp/seedwt_%s" % sid
     sh("git -C /repo worktree remove --force %s" % wt)
     shutil.rmtree(wt, ignore_errors=True)
-    rc, out = sh("git -C /repo worktree add --detach %s HEAD" % wt)
+    base = sys.argv[sys.argv.index("--base") + 1] if "--base" in sys.argv else "HEAD"
+    rc, out = sh("git -C /repo worktree add --detach %s %s" % (wt, base))
     assert rc == 0, out
-    meta = {"id": sid, "property": prop, "repo_head": sh("git -C /repo rev-parse --short HEAD")[1].strip(), "confirmed_at": time.strftime("%Y-%m-%dT%H:%M:%SZ", time.gmtime())}
+    meta = {"id": sid, "property": prop, "repo_head": sh("git -C /repo rev-parse --short %s" % base)[1].strip(), "confirmed_at": time.strftime("%Y-%m-%dT%H:%M:%SZ", time.gmtime())}
     try:
-        mdir = os.path.join(wt, "mutant")
+        # agents' run.sh scripts expect their original directory name (mutant1, mutant2, ...)
+        mm = re.search(r"-m(\d+)$", sid)
+        mname = "mutant" + (mm.group(1) if mm else "")
+        mdir = os.path.join(wt, mname)
         shutil.copytree(sdir, mdir)
         jobs = os.environ.get("VERIF_JOBS", "8")
-        rc0, out0 = sh("bash mutant/run.sh", cwd=wt, timeout=1800)
+        rc0, out0 = sh("bash %s/run.sh" % mname, cwd=wt, timeout=1800)
         meta["demo_unchanged"] = {"rc": rc0, "tail": out0[-600:]}
-        rc, out = sh("git apply --check mutant/patch.diff && git apply mutant/patch.diff", cwd=wt)
+        rc, out = sh("git apply --check %s/patch.diff && git apply %s/patch.diff" % (mname, mname), cwd=wt)
         if rc != 0:
-            rc, out = sh("git apply --3way mutant/patch.diff", cwd=wt)
+            rc, out = sh("git apply --3way %s/patch.diff" % mname, cwd=wt)
         meta["patch_applies"] = rc == 0
         if rc != 0:
             meta["patch_error"] = out[-800:]
             return meta
-        rc1, out1 = sh("bash mutant/run.sh", cwd=wt, timeout=1800)
+        rc1, out1 = sh("bash %s/run.sh" % mname, cwd=wt, timeout=1800)
         meta["demo_with_patch"] = {"rc": rc1, "tail": out1[-800:]}
         if suite:
             cfg = ("cmake -G Ninja -S . -B _build -DCMAKE_BUILD_TYPE=RelWithDebInfo -DDISPENSO_BUILD_TESTS=ON -DCMAKE_CXX_FLAGS=-Wno-error "
@@ -60,7 +68,11 @@ def main():
                 m = re.search(r"(\d+)% tests passed, (\d+) tests failed out of (\d+)", out)
                 unexpected = [f for f in failed if not ALLOW.match(f)]
                 meta["suite"] = {"summary": m.group(0) if m else out[-300:], "failed": failed, "unexpected_failures": unexpected}
-        meta["confirmed"] = bool(rc0 == 0 and meta["patch_applies"] and rc1 != 0 and (not suite or (meta.get("suite_builds") and not meta["suite"]["unexpected_failures"])))
+        if not suite and prev.get("suite"):
+            meta["suite_builds"] = prev.get("suite_builds")
+            meta["suite"] = prev["suite"]
+        suite_ok = bool(meta.get("suite_builds") and not meta.get("suite", {}).get("unexpected_failures", ["?"]))
+        meta["confirmed"] = bool(rc0 == 0 and meta["patch_applies"] and rc1 != 0 and suite_ok)
         return meta
     finally:
         # merge into meta.json (keeps hand-written fields)
